@@ -121,11 +121,14 @@ fn task_value(task: usize) -> u64 {
     1000 + task as u64
 }
 
-fn make_body(sh: &Arc<Shared>, task: usize, panics: bool) -> impl FnOnce() -> u64 + Send + 'static {
+fn make_body(sh: &Arc<Shared>, task: usize, panics: bool, waits_for: Option<usize>) -> impl FnOnce() -> u64 + Send + 'static {
     let guard = DropGuard { sh: Arc::clone(sh), task };
     move || {
         let guard = guard;
         let sh = &guard.sh;
+        if G.track_idle.load(Relaxed) {
+            g::worker_resumed();
+        }
         sh.ran[task].fetch_add(1, Relaxed);
         sh.ran_stamp[task].store(g::stamp(), Relaxed);
         let p = sh.hw.current_processor_id();
@@ -138,6 +141,15 @@ fn make_body(sh: &Arc<Shared>, task: usize, panics: bool) -> impl FnOnce() -> u6
             let (m, c) = &sh.started[task];
             *m.lock().unwrap_or_else(|e| e.into_inner()) = true;
             c.notify_all();
+        }
+        if let Some(on) = waits_for {
+            // A task that needs another task of the same pool to have started.
+            g::probe(g::P_DEPENDENT_TASK_WAITED);
+            let (m, c) = &sh.started[on];
+            let mut st = m.lock().unwrap_or_else(|e| e.into_inner());
+            while !*st {
+                st = c.wait(st).unwrap_or_else(|e| e.into_inner());
+            }
         }
         if panics {
             panic!("injected task panic {task}");
@@ -216,12 +228,16 @@ impl ThreadCtx {
     }
 
     fn do_spawn(&mut self, task: usize, kind: Kind, panics: bool, detach: bool, section: &'static str) {
+        self.do_spawn_dep(task, kind, panics, detach, section, None);
+    }
+
+    fn do_spawn_dep(&mut self, task: usize, kind: Kind, panics: bool, detach: bool, section: &'static str, waits_for: Option<usize>) {
         let Some(sched) = self.sched.clone() else { return };
-        if task >= MAX_TASKS {
+        if task >= MAX_TASKS || waits_for.is_some_and(|w| w >= MAX_TASKS) {
             return;
         }
         self.panics[task] = panics;
-        let body = make_body(&self.sh, task, panics);
+        let body = make_body(&self.sh, task, panics, waits_for);
         let begin = g::stamp();
         self.set_busy(1);
         G.spawn_begins.fetch_add(1, SeqCst);
@@ -404,6 +420,20 @@ impl ThreadCtx {
                         thread::yield_now();
                     }
                 }
+                Op::SpawnDependent { task, on } => {
+                    if section == "pre-spawn" {
+                        self.do_spawn_dep(usize::from(*task), Kind::Regular, false, false, section, Some(usize::from(*on)));
+                    }
+                }
+                Op::WaitWorkersIdle { n } => {
+                    if section == "pre-spawn" {
+                        let begin = g::stamp();
+                        self.set_busy(5);
+                        g::wait_workers_idle(u32::from(*n));
+                        self.set_busy(0);
+                        self.ev(begin, "workers-idle", -1, format!("{n}"));
+                    }
+                }
             }
             if self.res.violation.is_some() {
                 // Keep going: the run must still terminate cleanly; only the first violation is kept.
@@ -550,6 +580,10 @@ pub fn run(sc: &VScenario, ctx: &mut Ctx) -> Result<bool, Violation> {
     }
     G.gate_first_spawn.store(sc.gate_first_spawn, Relaxed);
     G.directed_race.store(sc.directed == Directed::ShutdownRace, Relaxed);
+    G.track_idle.store(
+        sc.threads.iter().any(|t| t.pre.iter().any(|o| matches!(o, Op::WaitWorkersIdle { .. }))),
+        Relaxed,
+    );
     vicinal::verif::set_sim_point_handler(Some(g::handler));
     G.active.store(true, Relaxed);
 
